@@ -126,4 +126,95 @@ theorem evalAssign_notchain (r : Rd) (rw : Nat) (x : String × Nat × Nat) (l : 
   congr 1
   exact put_ofNat_sub _ _ _ (by omega) hlt
 
+/-! ### Equal / EqualConstant: arithmetic of one-bit values -/
+
+theorem bit_val (x j : Nat) : (x >>> j) % 2 = if x.testBit j then 1 else 0 := by
+  rw [Nat.testBit_eq_decide_div_mod_eq, Nat.shiftRight_eq_div_pow]
+  have : x / 2 ^ j % 2 < 2 := Nat.mod_lt _ (by decide)
+  by_cases h : x / 2 ^ j % 2 = 1
+  · simp [h]
+  · simp [h]; omega
+
+theorem lt2 {x : Nat} (h : x < 2) : x = 0 ∨ x = 1 := by omega
+
+theorem orfold01 (l : List Nat) (acc : Nat) (hacc : acc < 2) (hl : ∀ x, x ∈ l → x < 2) :
+    l.foldl (· ||| ·) acc < 2 ∧ (l.foldl (· ||| ·) acc = 0 ↔ acc = 0 ∧ ∀ x, x ∈ l → x = 0) := by
+  induction l generalizing acc with
+  | nil => simp [hacc]
+  | cons y ys ih =>
+    simp only [List.foldl_cons]
+    have hy := hl y (by simp)
+    have hstep : acc ||| y < 2 ∧ (acc ||| y = 0 ↔ acc = 0 ∧ y = 0) := by
+      rcases lt2 hacc with e | e <;> rcases lt2 hy with e' | e' <;> subst e e' <;> decide
+    have := ih (acc ||| y) hstep.1 (fun x hx => hl x (by simp [hx]))
+    refine ⟨this.1, ?_⟩
+    rw [this.2, hstep.2]
+    simp [and_assoc]
+
+theorem andfold01 (l : List Nat) (acc : Nat) (hacc : acc < 2) (hl : ∀ x, x ∈ l → x < 2) :
+    l.foldl (· &&& ·) acc < 2 ∧ (l.foldl (· &&& ·) acc = 1 ↔ acc = 1 ∧ ∀ x, x ∈ l → x = 1) := by
+  induction l generalizing acc with
+  | nil => simp [hacc]
+  | cons y ys ih =>
+    simp only [List.foldl_cons]
+    have hy := hl y (by simp)
+    have hstep : acc &&& y < 2 ∧ (acc &&& y = 1 ↔ acc = 1 ∧ y = 1) := by
+      rcases lt2 hacc with e | e <;> rcases lt2 hy with e' | e' <;> subst e e' <;> decide
+    have := ih (acc &&& y) hstep.1 (fun x hx => hl x (by simp [hx]))
+    refine ⟨this.1, ?_⟩
+    rw [this.2, hstep.2]
+    simp [and_assoc]
+
+theorem eq_of_bits (w a b : Nat) (ha : a < 2 ^ w) (hb : b < 2 ^ w) (h : ∀ j, j < w → a.testBit j = b.testBit j) : a = b := by
+  apply Nat.eq_of_testBit_eq
+  intro i
+  by_cases hi : i < w
+  · exact h i hi
+  · have hle : w ≤ i := by omega
+    rw [Nat.testBit_lt_two_pow (Nat.lt_of_lt_of_le ha (Nat.pow_le_pow_right (by decide) hle)),
+      Nat.testBit_lt_two_pow (Nat.lt_of_lt_of_le hb (Nat.pow_le_pow_right (by decide) hle))]
+
+/-- Equal: `assign r = (a == b)? 1:0` -/
+theorem inline_equal {r : Rd} {a b : String} {wa wb va vb : Nat} (rw : Nat) (hw : 1 ≤ rw)
+    (ha : Known r a wa va) (hb : Known r b wb vb) :
+    evalAssign r rw (.tern (.bin "eq" (.id a) (.id b)) (C01.lit 1) (C01.lit 0)) = ⟨rw, if va = vb then 1 else 0, true⟩ := by
+  have e1 : ext (max wa wb) false ⟨wa, va, true⟩ = ⟨max wa wb, va, true⟩ := ext_known _ _ _ ha.lt (by omega)
+  have e2 : ext (max wa wb) false ⟨wb, vb, true⟩ = ⟨max wa wb, vb, true⟩ := ext_known _ _ _ hb.lt (by omega)
+  have one_lt : (1:Nat) < 2 ^ rw := Nat.one_lt_two_pow (by omega)
+  have x1 : ext (max rw 32) true ⟨32, 1, true⟩ = ⟨max rw 32, 1, true⟩ := by
+    unfold ext
+    by_cases h : max rw 32 ≤ 32
+    · have : max rw 32 = 32 := by omega
+      simp [h, this]
+    · simp [h]
+  have x0 : ext (max rw 32) true ⟨32, 0, true⟩ = ⟨max rw 32, 0, true⟩ := by
+    unfold ext
+    by_cases h : max rw 32 ≤ 32
+    · have : max rw 32 = 32 := by omega
+      simp [h, this]
+    · simp [h]
+  have eb : ∀ b : Bool, ext 1 false (b1 b) = b1 b := by intro b; cases b <;> decide
+  have hc : eval r 1 false (.bin "eq" (.id a) (.id b)) = b1 (decide (va = vb)) := by
+    simp only [eval, isRel, selfW, isSg, widthOf_k ha, widthOf_k hb, signedOf_k ha, signedOf_k hb, ha.val, hb.val,
+      beq_self_eq_true, Bool.true_or, if_true, Bool.false_and, Bool.and_self, e1, e2, rel, Bool.not_true,
+      Bool.false_eq_true, if_false]
+    rw [eb]
+    by_cases e : va = vb
+    · subst e; simp
+    · have hne : ((va:Int) == (vb:Int)) = false := by simp; omega
+      simp [e, hne]
+  unfold evalAssign
+  have hsw : selfW r (.tern (.bin "eq" (.id a) (.id b)) (C01.lit 1) (C01.lit 0)) = 32 := by simp [selfW, C01.lit]
+  have hsg : isSg r (.tern (.bin "eq" (.id a) (.id b)) (C01.lit 1) (C01.lit 0)) = true := by simp [isSg, C01.lit]
+  have hcw : selfW r (.bin "eq" (.id a) (.id b)) = 1 := by simp [selfW, isRel]
+  have hcs : isSg r (.bin "eq" (.id a) (.id b)) = false := by simp [isSg, isRel]
+  simp only [hsw, hsg]
+  rw [eval_tern, hcw, hcs]
+  rw [hc]
+  have l1 : eval r (max rw 32) true (C01.lit 1) = ⟨max rw 32, 1, true⟩ := by simp [eval, C01.lit, BV.mk', x1]
+  have l0 : eval r (max rw 32) true (C01.lit 0) = ⟨max rw 32, 0, true⟩ := by simp [eval, C01.lit, BV.mk', x0]
+  by_cases e : va = vb
+  · simp [e, truthy, b1, l1, Nat.mod_eq_of_lt one_lt]
+  · simp [e, truthy, b1, l0]
+
 end FlatM
